@@ -392,6 +392,9 @@ struct QuadRhs {
     x0: f64,
     len: f64,
     coef: Vec<f64>,
+    /// amplitude of an initial transient 50 e^{-400 s} sin(2000 s) added to p'(t) (0 = none): it forces step
+    /// rejections early in the span and is below an ulp of p' from s = 0.1 on
+    trans: f64,
 }
 impl QuadRhs {
     fn p(&self, t: f64) -> f64 {
@@ -411,6 +414,9 @@ impl Rhs for QuadRhs {
             acc = acc * s + (k as f64) * self.coef[k];
         }
         dy[0] = acc / self.len;
+        if self.trans != 0.0 {
+            dy[0] += self.trans * 50.0 * (-400.0 * s).exp() * (2000.0 * s).sin() / self.len;
+        }
     }
 }
 
@@ -422,7 +428,10 @@ fn check_quad(m: Meth, deg: usize, coef: &[f64], x0: f64, len: f64, back: bool) 
         Meth::DOP853 => (5, 6.0),
         _ => return Outcome::triv("n/a"),
     };
-    let rhs = QuadRhs { x0, len: len * d, coef: coef[..=deg].to_vec() };
+    // a quarter of the exact-degree cases start with a fast transient (rejections), after which the solution is the
+    // polynomial again: from there on the step must grow by the maximal factor every time
+    let trans = if deg <= dhat && coef.len() >= 8 && coef[7] > 1.0 { coef[7] } else { 0.0 };
+    let rhs = QuadRhs { x0, len: len * d, coef: coef[..=deg].to_vec(), trans };
     let run = |tol: f64| -> Option<(Vec<f64>, usize, Status)> {
         let evs = vec![EvSpec { g: Ev::Const { v: 1.0 }, dir: 0, terminal: None }];
         let mut instr = Instr::new(&rhs, &evs);
@@ -445,6 +454,28 @@ fn check_quad(m: Meth, deg: usize, coef: &[f64], x0: f64, len: f64, back: bool) 
         return Outcome::triv("quad-status");
     }
     let hs: Vec<f64> = grid.windows(2).map(|w| (w[1] - w[0]).abs()).collect();
+    if trans != 0.0 {
+        // steps that start after s = 0.12 (the transient is below 1e-19 there), the clipped last one excepted
+        let mut seen = 0;
+        for k in 0..hs.len().saturating_sub(2) {
+            let s0 = (grid[k] - x0).abs() / len;
+            if s0 < 0.12 {
+                continue;
+            }
+            seen += 1;
+            let ratio = hs[k + 1] / hs[k];
+            if ratio < 0.9 * maxfac {
+                return Outcome::viol(format!(
+                    "{}: after an initial transient ({} rejected steps) the solution is a polynomial of degree {} <= {}: the estimate vanishes and the step must grow by {} each time, but the step starting at s={:.3} grew by {:.4} only (last steps {:?})",
+                    m.name(), nrej, deg, dhat, maxfac, s0, ratio, &hs[hs.len().saturating_sub(6)..]
+                ));
+            }
+        }
+        if hs.len() > 2000 {
+            return Outcome::viol(format!("{}: {} accepted steps on a span whose last 70 % is a polynomial of degree {} <= {} (the step never recovered after the transient; {} rejections)", m.name(), hs.len(), deg, dhat, nrej));
+        }
+        return Outcome::pass(format!("{}:quad-after-transient", m.name()), nrej >= 1, json!({"steps": hs.len(), "deg": deg, "rejected": nrej, "growth_steps_checked": seen}));
+    }
     if deg <= dhat {
         // the estimate vanishes: every step grows by the maximal factor until the end of the span
         if nrej != 0 {
@@ -595,7 +626,7 @@ pub fn run(ctx: &Ctx, known: &[Known]) -> Report {
     }
     Report {
         id: "C02".into(),
-        rule: "five kinds of cases: (1) tableau extraction at generated (x0 = k/8, h = +-2^j) with all rooted-tree order conditions up to p (exhaustive over trees; also run once per method and sign of h as the exhaustive part), (2) local-error slope (three smallest usable of five refinements) of one step from exact data of an autonomous linear closed-form problem (RK4, RK23, DOPRI5, DOP853, Radau with fully converged Newton), (3) one Radau step on y'=lambda*y, z=h*lambda in |z|<=20 (complex via the 2x2 rotation-scaling system) against the (2,3) Pade approximant, and every accepted step of ordinary multi-step Radau runs on y'=lambda*y (analytic Jacobian: the simplified Newton iteration is exact, so steps after rejections, with re-used factors and the clipped last step must all be Radau IIA steps, to 1e-11), (4) pure quadrature y'=p'(t) of degree <= d^ (estimate must vanish: every step grows by exactly the maximal factor) and d^+1 (tolerance limited), (5) accepted steps vs tolerance exponent within [0.8/q, 1.35/q]. Non-trivial = the sub-check produced a verdict from a usable measurement (>= 3 slope points, >= 4 steps, >= 5 tolerance points with >= 30 steps). Distinct = distinct canonical JSON.".into(),
+        rule: "five kinds of cases: (1) tableau extraction at generated (x0 = k/8, h = +-2^j) with all rooted-tree order conditions up to p (exhaustive over trees; also run once per method and sign of h as the exhaustive part), (2) local-error slope (three smallest usable of five refinements) of one step from exact data of an autonomous linear closed-form problem (RK4, RK23, DOPRI5, DOP853, Radau with fully converged Newton), (3) one Radau step on y'=lambda*y, z=h*lambda in |z|<=20 (complex via the 2x2 rotation-scaling system) against the (2,3) Pade approximant, and every accepted step of ordinary multi-step Radau runs on y'=lambda*y (analytic Jacobian: the simplified Newton iteration is exact, so steps after rejections, with re-used factors and the clipped last step must all be Radau IIA steps, to 1e-11), (4) pure quadrature y'=p'(t) of degree <= d^ (estimate must vanish: every step grows by exactly the maximal factor; a quarter of these start with a fast transient that forces rejections, after which the growth must resume) and d^+1 (tolerance limited), (5) accepted steps vs tolerance exponent within [0.8/q, 1.35/q]. Non-trivial = the sub-check produced a verdict from a usable measurement (>= 3 slope points, >= 4 steps, >= 5 tolerance points with >= 30 steps). Distinct = distinct canonical JSON.".into(),
         assumptions: vec![
             "slope thresholds: RK4 4.5, RK23 3.5, DOPRI5 5.3, Radau 5.2, DOP853 7.5 (calibrated, see source); the decisive checks are the tree conditions (explicit methods) and the Pade approximant (Radau)".into(),
             "tree residual tolerance 2e-13, row sums 5e-14".into(),
